@@ -223,3 +223,94 @@ Theorem C07_claims_match_is_source : forall v c clock,
   Src_claims.claims_match_src v (Src_refine_claims.inject_spec c) clock = Ok (VBool (claims_match (Some v) c)).
 Proof. exact Src_refine_claims.claims_match_refines. Qed.
 Print Assumptions C07_claims_match_is_source.
+
+(* --- round 11 --- *)
+(* Multi-valued (list-valued) user attributes.  The filter hands the attribute as stored to claims_match: a list is ONE
+   value.  Model/ClaimsMV.v: release_attr (by attribute shape), carried / permitted_values / value_restricted, the
+   value-by-value judgement values_within.  Tied to the real ClaimsInterface and to the real release points by
+   drv_C07.multi_valued_unit / multi_valued_release_points (user records whose attributes are lists mixing permitted
+   and non-permitted values, empty and one-element lists, lists of dicts x null / essential / value / values /
+   essential+value(s) specifications from the claims parameter, dict-form base_claims and dict-form always_add_claims). *)
+From Verif Require Model.ClaimsMV Proofs.ClaimsMV_proofs.
+
+(* the hand-written released-claims function IS the shape-wise one *)
+Theorem C07_user_claims_by_shape : forall ui r,
+  user_claims ui r =
+  List.flat_map (fun kv => match assoc (fst kv) ui with
+                           | Some v => match ClaimsMV.release_attr v (snd kv) with Some x => [(fst kv, x)] | None => [] end
+                           | None => [] end) r.
+Proof. exact ClaimsMV_proofs.user_claims_by_shape. Qed.
+Print Assumptions C07_user_claims_by_shape.
+
+Theorem C07_release_attr_is_claims_match : forall v c,
+  ClaimsMV.release_attr v c = if claims_match (Some v) c then Some v else None.
+Proof. exact ClaimsMV_proofs.release_attr_spec. Qed.
+Print Assumptions C07_release_attr_is_claims_match.
+
+(* a released value of a value-restricted claim is (Python ==) a permitted value, for every attribute shape *)
+Theorem C07_released_value_permitted : forall ui r k v,
+  In (k, v) (user_claims ui r) ->
+  exists spec, In (k, spec) r /\ assoc k ui = Some v /\
+    forall s, spec = Some s -> ClaimsMV.value_restricted s = true ->
+              exists p, In p (ClaimsMV.permitted_values s) /\ pyval_eqb v p = true.
+Proof. exact ClaimsMV_proofs.released_value_permitted. Qed.
+Print Assumptions C07_released_value_permitted.
+
+(* a released LIST under a value restriction is itself listed as a permitted value - never let out element-wise *)
+Theorem C07_released_list_permitted_as_a_whole : forall ui r k l,
+  In (k, VList l) (user_claims ui r) ->
+  exists spec, In (k, spec) r /\
+    forall s, spec = Some s -> ClaimsMV.value_restricted s = true ->
+              exists p, In p (ClaimsMV.permitted_values s) /\ ClaimsMV.is_list p = true /\ pyval_eqb (VList l) p = true.
+Proof. exact ClaimsMV_proofs.released_list_permitted_as_a_whole. Qed.
+Print Assumptions C07_released_list_permitted_as_a_whole.
+
+(* value by value: what leaves lies within the specification in force *)
+Theorem C07_released_values_within : forall ui r k v,
+  In (k, v) (user_claims ui r) -> exists spec, In (k, spec) r /\ ClaimsMV.values_within spec v = true.
+Proof. exact ClaimsMV_proofs.released_values_within. Qed.
+Print Assumptions C07_released_values_within.
+
+(* some elements permitted, the list as a whole not: withheld *)
+Theorem C07_partial_match_withheld : forall l s,
+  ClaimsMV.value_restricted s = true -> ClaimsMV.permitted s (VList l) = false -> ClaimsMV.release_attr (VList l) (Some s) = None.
+Proof. exact ClaimsMV_proofs.partial_match_withheld. Qed.
+Print Assumptions C07_partial_match_withheld.
+
+Theorem C07_scalar_restriction_withholds_list : forall l s,
+  ClaimsMV.value_restricted s = true ->
+  forallb (fun p => negb (ClaimsMV.is_list p)) (ClaimsMV.permitted_values s) = true ->
+  ClaimsMV.release_attr (VList l) (Some s) = None.
+Proof. exact ClaimsMV_proofs.scalar_restriction_withholds_list. Qed.
+Print Assumptions C07_scalar_restriction_withholds_list.
+
+Theorem C07_multi_valued_withheld : forall ui r k l s,
+  NoDup (keys r) -> In (k, Some s) r -> assoc k ui = Some (VList l) ->
+  ClaimsMV.value_restricted s = true -> ClaimsMV.permitted s (VList l) = false ->
+  ~ In k (keys (user_claims ui r)).
+Proof. exact ClaimsMV_proofs.multi_valued_withheld. Qed.
+Print Assumptions C07_multi_valued_withheld.
+
+(* no value restriction (null, `essential` alone): the whole list leaves, also the empty one *)
+Theorem C07_multi_valued_unrestricted : forall l,
+  ClaimsMV.release_attr (VList l) None = Some (VList l)
+  /\ forall b, ClaimsMV.release_attr (VList l) (Some [SEssential b]) = Some (VList l).
+Proof. exact ClaimsMV_proofs.multi_valued_unrestricted. Qed.
+Print Assumptions C07_multi_valued_unrestricted.
+
+(* non-vacuity: affiliation [staff, member].  values [member] -> withheld (one of two elements permitted); value = the
+   list itself -> released; values [staff, member] (element-wise all permitted) -> withheld; null -> released;
+   essential + value member -> withheld; scalar attribute with the same restriction -> released *)
+Example C07_multi_valued_nonvacuous :
+  let staff := VStr (PS "staff@example.org") in let member := VStr (PS "member@example.org") in
+  let rec_ := [(PS "affil", VList [staff; member]); (PS "one", member)] in
+  user_claims rec_ [(PS "affil", Some [SValues [member]])] = []
+  /\ user_claims rec_ [(PS "affil", Some [SValue (VList [staff; member])])] = [(PS "affil", VList [staff; member])]
+  /\ user_claims rec_ [(PS "affil", Some [SValues [staff; member]])] = []
+  /\ user_claims rec_ [(PS "affil", None)] = [(PS "affil", VList [staff; member])]
+  /\ user_claims rec_ [(PS "affil", Some [SEssential (VBool true); SValue member])] = []
+  /\ user_claims rec_ [(PS "one", Some [SEssential (VBool true); SValue member])] = [(PS "one", member)]
+  /\ ClaimsMV.values_within (Some [SValues [member]]) (VList [staff; member]) = false
+  /\ ClaimsMV.values_within (Some [SValues [member; staff]]) (VList [staff; member]) = true.
+Proof. vm_compute. repeat split; reflexivity. Qed.
+(* --- end round 11 --- *)
